@@ -922,6 +922,61 @@ func init() {
 					}
 				}
 			}
+			if !scanOK && ascii != nil {
+				// the scan may live in a search helper: found := firstForbidden(ascii)
+				for _, r := range *ascii.Referrers() {
+					call, ok := r.(*ssa.Call)
+					if !ok {
+						continue
+					}
+					g := call.Common().StaticCallee()
+					kb, ok := forbiddenScanFn(c, g)
+					if !ok {
+						continue
+					}
+					s.OK("hostpipe/scan", c.P.Pos(call.Pos()), "every code point of the ToASCII result is tested against ForbiddenDomainCodePoint by "+g.Name()+", which answers true exactly when one is found")
+					ff := Facts(c, ph)
+					nRet := 0
+					for _, b := range ph.Blocks {
+						rt, ok := b.Instrs[len(b.Instrs)-1].(*ssa.Return)
+						if !ok || !ff.Reachable(b) {
+							continue
+						}
+						ei := errResultIndex(ph)
+						if ei < 0 || ei >= len(rt.Results) {
+							continue
+						}
+						success := isNilConst(rt.Results[ei])
+						if ex, ok := rt.Results[ei].(*ssa.Extract); ok {
+							if c2, ok := ex.Tuple.(*ssa.Call); ok && c2.Common().StaticCallee() != nil && c2.Common().StaticCallee().Name() == "parseIPv4" {
+								success = true
+							}
+						}
+						if !success {
+							continue
+						}
+						lax, clean := false, false
+						beforeDecode := !ff.Dominates(decode.Block(), b)
+						for _, fa := range ff.At(b) {
+							if optLoad(fa.Cond) == "laxHostParsing" && fa.Val {
+								lax = true
+							}
+							if ex, ok := fa.Cond.(*ssa.Extract); ok && ex.Tuple == ssa.Value(call) && ex.Index == kb && !fa.Val {
+								clean = true
+							}
+						}
+						if beforeDecode || lax {
+							continue
+						}
+						nRet++
+						s.Check(clean, fmt.Sprintf("hostpipe/return#%d", nRet), c.P.Pos(rt.Pos()), "reached only when the forbidden-domain scan found nothing", "a domain can be returned without the forbidden-domain scan having found nothing")
+					}
+					if nRet == 0 {
+						s.Unknown("hostpipe/returns", pos, "no non-lax success return of a domain found")
+					}
+					return
+				}
+			}
 			if !scanOK {
 				s.Bad("hostpipe/scan", pos, "no scan of the ToASCII result against ForbiddenDomainCodePoint found")
 				return
@@ -1383,4 +1438,117 @@ func schemeTableLookup(g *ssa.Function) bool {
 		}
 	}
 	return n > 0
+}
+
+// forbiddenScanFn: g ranges over its string parameter, tests every code point against ForbiddenDomainCodePoint, and
+// has a bool result (index returned) that is the constant true exactly on returns under a positive test and the
+// constant false on the others; it writes nothing.
+func forbiddenScanFn(c *Ctx, g *ssa.Function) (int, bool) {
+	if g == nil || len(g.Blocks) == 0 || !c.P.InModule(g) {
+		return 0, false
+	}
+	var sp *ssa.Parameter
+	for _, p := range g.Params {
+		if isStringType(p.Type()) {
+			if sp != nil {
+				return 0, false
+			}
+			sp = p
+		}
+	}
+	if sp == nil {
+		return 0, false
+	}
+	if sum := BuildEff(c).Sum(g); sum == nil || len(sum.Mut) > 0 {
+		return 0, false
+	}
+	var rng *ssa.Range
+	var test *ssa.Call
+	for _, b := range g.Blocks {
+		for _, ins := range b.Instrs {
+			switch x := ins.(type) {
+			case *ssa.Range:
+				if x.X == ssa.Value(sp) {
+					rng = x
+				}
+			case *ssa.Call:
+				if cl := x.Common().StaticCallee(); cl != nil && cl.Name() == "Test" && core.PkgPathOf(cl) == core.BitsetPath {
+					if n, ok := bitsetGlobal(x.Common().Args[0]); ok && n == "ForbiddenDomainCodePoint" {
+						test = x
+					}
+				}
+			}
+		}
+	}
+	if rng == nil || test == nil {
+		return 0, false
+	}
+	ex, ok := stripConv(test.Common().Args[1]).(*ssa.Extract)
+	if !ok || ex.Index != 2 {
+		return 0, false
+	}
+	if nx, ok := ex.Tuple.(*ssa.Next); !ok || nx.Iter != ssa.Value(rng) {
+		return 0, false
+	}
+	// the test decides a branch directly
+	kb := -1
+	for i := 0; i < g.Signature.Results().Len(); i++ {
+		if b, ok := g.Signature.Results().At(i).Type().Underlying().(*types.Basic); ok && b.Kind() == types.Bool {
+			if kb >= 0 {
+				return 0, false
+			}
+			kb = i
+		}
+	}
+	if kb < 0 {
+		return 0, false
+	}
+	ff := Facts(c, g)
+	nT, nF := 0, 0
+	for _, b := range g.Blocks {
+		rt, ok := b.Instrs[len(b.Instrs)-1].(*ssa.Return)
+		if !ok || !ff.Reachable(b) {
+			continue
+		}
+		v, isK := constBool(rt.Results[kb])
+		if !isK {
+			return 0, false
+		}
+		under := false
+		for _, fa := range ff.At(b) {
+			if fa.Cond == ssa.Value(test) && fa.Val {
+				under = true
+			}
+		}
+		if v != under {
+			return 0, false
+		}
+		if v {
+			nT++
+		} else {
+			nF++
+		}
+	}
+	// the false answer is given only after the loop ran to its end: under "the range has no further element"
+	for _, b := range g.Blocks {
+		rt, ok := b.Instrs[len(b.Instrs)-1].(*ssa.Return)
+		if !ok || !ff.Reachable(b) {
+			continue
+		}
+		if v, _ := constBool(rt.Results[kb]); v {
+			continue
+		}
+		done := false
+		for _, fa := range ff.At(b) {
+			if e0, ok := fa.Cond.(*ssa.Extract); ok && e0.Index == 0 && !fa.Val {
+				if nx, ok := e0.Tuple.(*ssa.Next); ok && nx.Iter == ssa.Value(rng) {
+					done = true
+				}
+			}
+		}
+		if !done {
+			return 0, false
+		}
+	}
+	return kb, nT > 0 && nF > 0
 }
